@@ -160,11 +160,11 @@ func runNode3(c *fw.Ctx, idx int, n univ.SNode) {
 				return
 			}
 			k++
-			fl := fileCase{schema: rs, datums: []ref.Datum{rec}, encoded: [][]byte{e.b}, comp: []int{1}, codec: "null", mode: k % filedrv.NumModes, encDesc: e.vec}
+			fl := fileCase{schema: rs, datums: []ref.Datum{rec}, encoded: [][]byte{e.b}, comp: []int{1}, codec: "null", mode: k % filedrv.NumReadModes, encDesc: e.vec}
 			readAndCompare(c, fl, fl.bytes(), lacking, false, n.Chain+"|field-absent-from-target", true)
 			for ti, ft := range targets {
 				k++
-				f := fileCase{schema: rs, datums: []ref.Datum{rec}, encoded: [][]byte{e.b}, comp: []int{1}, codec: "null", mode: k % filedrv.NumModes, encDesc: e.vec}
+				f := fileCase{schema: rs, datums: []ref.Datum{rec}, encoded: [][]byte{e.b}, comp: []int{1}, codec: "null", mode: k % filedrv.NumReadModes, encDesc: e.vec}
 				locus := n.Chain + "|" + typeChain(ft)
 				readAndCompare(c, f, f.bytes(), structFor(ft), ti%2 == 1, locus, true)
 				if ft.Size() < 8 {
@@ -172,7 +172,7 @@ func runNode3(c *fw.Ctx, idx int, n univ.SNode) {
 					// (fields match by name): decoding f must leave the already decoded neighbour alone
 					k++
 					dEnc := e.b[:len(e.b)-len(sentinelEnc)]
-					f2 := fileCase{schema: rs2, datums: []ref.Datum{ref.DRecord(ref.DLong(sentinel), d)}, encoded: [][]byte{append(append([]byte(nil), sentinelEnc...), dEnc...)}, comp: []int{1}, codec: "null", mode: k % filedrv.NumModes, encDesc: e.vec}
+					f2 := fileCase{schema: rs2, datums: []ref.Datum{ref.DRecord(ref.DLong(sentinel), d)}, encoded: [][]byte{append(append([]byte(nil), sentinelEnc...), dEnc...)}, comp: []int{1}, codec: "null", mode: k % filedrv.NumReadModes, encDesc: e.vec}
 					readAndCompare(c, f2, f2.bytes(), neighbourFor(ft), false, locus+"|narrow-neighbour", true)
 				}
 			}
@@ -198,7 +198,7 @@ func runNode3(c *fw.Ctx, idx int, n univ.SNode) {
 						continue
 					}
 					k++
-					f := fileCase{schema: rs, datums: recs, encoded: encs, comp: comp, codec: codec, mode: k % filedrv.NumModes, encDesc: vec}
+					f := fileCase{schema: rs, datums: recs, encoded: encs, comp: comp, codec: codec, mode: k % filedrv.NumReadModes, encDesc: vec}
 					readAndCompare(c, f, f.bytes(), structFor(ft), false, n.Chain+"|"+typeChain(ft), true)
 				}
 			}
